@@ -166,18 +166,22 @@ Proof.
   - apply Forall2_app; [exact H|constructor; [exact Hv|constructor]].
 Qed.
 
+(* the title may be filed as ~Curves (under some provisional version: in a 3.0 file a ~C title with an
+   underscore is one of LAS 3.0's own sections, in a 1.2 / 2.0 file it is the curve section) *)
 Definition routes_curves (title : list N) (letter : N) : bool :=
-  ((letter =? 67) && negb (in_str ch_us title)) || contains (s2l "~Log_Definition") title.
+  (letter =? 67) || contains (s2l "~Log_Definition") title.
 
-Lemma route_frame title letter sec sec' l l' :
+Lemma route_frame v3 title letter sec sec' l l' :
   las_frame l l' -> sect_sub sec sec' -> wrap_of sec = wrap_of sec' ->
   (routes_curves title letter = true -> sec = sec') ->
-  las_frame (route title letter sec l) (route title letter sec' l').
+  las_frame (route v3 title letter sec l) (route v3 title letter sec' l').
 Proof.
-  intros (F1 & F2 & F3 & F4 & F5 & F6 & F7 & F8 & F9) Hs Hw Hc. unfold route. fold (routes_curves title letter).
-  destruct (routes_curves title letter).
-  - rewrite (Hc eq_refl). unfold las_frame. cbn. repeat split; try assumption; try apply F6; try apply F7; try apply F8.
-  - destruct (((letter =? 80) && negb (in_str ch_us title)) || contains (s2l "~Log_Parameter") title).
+  intros (F1 & F2 & F3 & F4 & F5 & F6 & F7 & F8 & F9) Hs Hw Hc. unfold route.
+  destruct (((letter =? 67) && negb (v3 && in_str ch_us title)) || contains (s2l "~Log_Definition") title) eqn:EC.
+  - assert (Hr : routes_curves title letter = true).
+    { unfold routes_curves. destruct (letter =? 67); [reflexivity|]. cbn [andb orb] in EC. exact EC. }
+    rewrite (Hc Hr). unfold las_frame. cbn. repeat split; try assumption; try apply F6; try apply F7; try apply F8.
+  - destruct (((letter =? 80) && negb (v3 && in_str ch_us title)) || contains (s2l "~Log_Parameter") title).
     + unfold las_frame. cbn. repeat split; try assumption; try apply F6; try apply F7; try apply Hs.
     + destruct (letter =? 86).
       * unfold las_frame. cbn. repeat split; try assumption; try apply F7; try apply F8; try apply Hs.
@@ -185,6 +189,13 @@ Proof.
         -- unfold las_frame. cbn. repeat split; try assumption; try apply F6; try apply F8; try apply Hs.
         -- unfold las_frame. cbn. repeat split; try assumption; try apply F6; try apply F7; try apply F8.
            apply set_custom_rel; [|exact F9]. split; [reflexivity|exact Hs].
+Qed.
+
+Lemma update_steering_version letter sec ps ps' :
+  p_version ps = p_version ps' -> p_version (update_steering letter sec ps) = p_version (update_steering letter sec ps').
+Proof.
+  intros E. unfold update_steering. destruct (letter =? 86); [cbn [p_version]; rewrite E; reflexivity|].
+  destruct (letter =? 87); cbn [p_version]; exact E.
 Qed.
 
 Ltac psplit := repeat match goal with |- _ /\ _ => split end.
@@ -319,6 +330,7 @@ Proof.
     cbn [res_equiv].
     rewrite (update_steering_frame (tr_of (o_mcase o)) letter r r' ps' Hlook).
     apply with_las_frame; [apply update_steering_steer; exact Hps|].
+    rewrite (update_steering_version letter _ ps ps' (proj1 Hps)).
     rewrite !update_steering_las. apply route_frame; try assumption.
     + apply wrap_of_lookup. apply Hlook. cbn. auto.
     + intros Hc. rewrite (Hcur Hc). reflexivity.
